@@ -123,8 +123,8 @@ META = {
         "design_ref": "DESIGN.md §4 C11",
     },
     "C12": {
-        "text": "Theorems: no operation moves the pool state backwards and only stop changes it (C12_monotone); submissions after stopping began are rejected with the queue untouched (C12_reject_after_stop); stop reports success only with state Stopped, no live worker and an empty queue (C12_accepted_run_before_ok); a successful stop leaves no waiter registered (C12_waiters_settled); a wait begun on a stopped pool fails at once (C12_wait_after_stopped). Tie: as C11, plus the Spec on the implementation's outputs (state never goes back, nothing accepted after stop, stop ok only when done, no hang). A task that submits to its own pool from inside its body is rejected like any other submitter once stopping has begun, also while stop drains it (C12_nested_submission_rejected/_accepted; pool histories with the task step N).",
-        "note": "Trusted: as C11. stop is exercised with a zero time budget (virtual clock); EventLoop::stop / stop_sync are not covered.",
+        "text": "Theorems: no operation moves the pool state backwards and only stop changes it (C12_monotone); submissions after stopping began are rejected with the queue untouched (C12_reject_after_stop); stop reports success only with state Stopped, no live worker and an empty queue (C12_accepted_run_before_ok); a successful stop leaves no waiter registered (C12_waiters_settled); a wait begun on a stopped pool fails at once (C12_wait_after_stopped). Tie: as C11, plus the Spec on the implementation's outputs (state never goes back, nothing accepted after stop, stop ok only when done, no hang). A task that submits to its own pool from inside its body is rejected like any other submitter once stopping has begun, also while stop drains it (C12_nested_submission_rejected/_accepted; pool histories with the task step N). `rtstop`: EventLoops::stop on a started runtime (1-3 loops, tasks that return, yield or sleep): success only with every accepted task run, success with a generous budget, later submissions rejected.",
+        "note": "Trusted: as C11. stop is exercised with a zero time budget (virtual clock); EventLoops::stop is covered by outcome on the wall clock (`rtstop`); stop_sync is not.",
         "design_ref": "DESIGN.md §4 C12",
     },
     "C01": {
@@ -138,7 +138,7 @@ META = {
         "design_ref": "DESIGN.md §4 C02",
     },
     "C13": {
-        "text": "Theorems: a task cancelled while queued is skipped by the worker that takes it - nothing starts, an error result is stored and its waiter registration removed (C13_before_start); requesting a cancel changes nothing but the cancel sets (C13_cancel_frame); skipping changes only that task's result and waiter (C13_skip_frame). Tie: as C11; tasks log when their body starts; `co` (the coroutines that run the tasks): a cancel issued for one coroutine never ends another one. A cancel that finds the task suspended inside its worker settles it when the scheduler drops that worker: result `cancelled` stored, waiter woken (C13_parked_cancel_settles, C13_parked_cancel_unwanted).",
+        "text": "Theorems: a task cancelled while queued is skipped by the worker that takes it - nothing starts, an error result is stored and its waiter registration removed (C13_before_start); requesting a cancel changes nothing but the cancel sets (C13_cancel_frame); skipping changes only that task's result and waiter (C13_skip_frame). Tie: as C11; tasks log when their body starts; `co` (the coroutines that run the tasks): a cancel issued for one coroutine never ends another one. A cancel that finds the task suspended inside its worker settles it when the scheduler drops that worker: result `cancelled` stored, waiter woken (C13_parked_cancel_settles, C13_parked_cancel_unwanted). `rtcancel`: on a started runtime a task is cancelled while it is in progress (spinning, yielding every 200 us, or parked in a hooked sleep); every other task must finish with its own value.",
         "note": "Trusted: as C11. The running-task path (signal to the thread that is executing the coroutine, lookup/delivery race) is not exercised: partial.",
         "design_ref": "DESIGN.md §4 C13",
     },
